@@ -31,6 +31,10 @@ pub enum Op10
     /// A burst: `.0` fresh entities are prepared and every signal is dropped again before the next collection; with
     /// `.1` the entities are despawned by hand first (stale entries). At most one burst per history.
     Burst(u16, bool),
+    /// A cobweb system command is put on the world's own command queue and left there (`world.commands().queue(..)`
+    /// without a flush): it runs at the next operation that flushes the world - possibly in the middle of a garbage
+    /// collection (despawning flushes), where its runner starts a collection of its own. At most one pending at a time.
+    QueueRun,
 }
 
 /// Burst sizes offered by `enabled` (set per tier).
@@ -50,6 +54,8 @@ pub struct Model10
     pub burst_size: u16,
     pub burst_stale: bool,
     pub resetups: u8,
+    /// A system command waits on the world's command queue.
+    pub queued: bool,
 }
 
 impl Model10
@@ -99,6 +105,7 @@ impl Model10
             }
         }
         v.push(Op10::Gc);
+        if !self.queued { v.push(Op10::QueueRun); }
         if self.resetups < 1 { v.push(Op10::Resetup); }
         if self.burst == 0
         {
@@ -107,10 +114,28 @@ impl Model10
         v
     }
 
+    /// What a complete collection does (also performed by the runner of a system command).
+    fn collect(&mut self)
+    {
+        for i in 0..N_ENTS
+        {
+            if self.doomed[i] { self.doomed[i] = false; self.kill_recursive(i); }
+        }
+        if self.burst == 1 { self.burst = 2; }
+    }
+
     pub fn apply(&mut self, op: Op10)
     {
+        // operations that flush the world's command queue before they take effect run the waiting system command first
+        // (its runner collects garbage)
+        if self.queued && matches!(op, Op10::ManualDespawn(_) | Op10::Burst(_, _))
+        {
+            self.queued = false;
+            self.collect();
+        }
         match op
         {
+            Op10::QueueRun => { self.queued = true; }
             Op10::Prepare(e) => { self.prepared[e as usize] = true; self.clones[e as usize] = 1; }
             Op10::Clone(e) => { self.clones[e as usize] += 1; }
             Op10::Drop(e) | Op10::DropUnwinding(e) =>
@@ -121,11 +146,10 @@ impl Model10
             }
             Op10::Gc =>
             {
-                for i in 0..N_ENTS
-                {
-                    if self.doomed[i] { self.doomed[i] = false; self.kill_recursive(i); }
-                }
-                if self.burst == 1 { self.burst = 2; }
+                // despawning a live entity flushes the world's queue: the waiting command runs inside the collection
+                let despawns = (0..N_ENTS).any(|i| self.doomed[i] && self.alive[i]) || (self.burst == 1 && !self.burst_stale);
+                if despawns { self.queued = false; }
+                self.collect();
             }
             Op10::Burst(k, stale) => { self.burst = 1; self.burst_size = k; self.burst_stale = stale; }
             Op10::Resetup => { self.resetups += 1; }
@@ -137,7 +161,11 @@ impl Model10
                 for k in 0..N_ENTS { if self.parent[k] == Some(e) { self.parent[k] = None; } }
                 self.parent[i] = None;
             }
-            Op10::Reparent(e, p) => { self.parent[e as usize] = Some(p); }
+            Op10::Reparent(e, p) =>
+            {
+                // (a hierarchy edit through `EntityWorldMut` does not flush the world's command queue)
+                self.parent[e as usize] = Some(p);
+            }
         }
     }
 }
@@ -156,6 +184,7 @@ pub fn run10(hist: &[Op10]) -> StepResult<Key10>
     let mut app = App::new();
     app.add_plugins(ReactPlugin);
     let ents: Vec<Entity> = (0..N_ENTS).map(|_| app.world_mut().spawn_empty().id()).collect();
+    let idle_sys = app.world_mut().spawn_system_command(|| {});
     let mut model = Model10::new();
     let mut signals: Vec<Vec<AutoDespawnSignal>> = (0..N_ENTS).map(|_| Vec::new()).collect();
     let mut burst_ents: Vec<Entity> = Vec::new();
@@ -170,6 +199,7 @@ pub fn run10(hist: &[Op10]) -> StepResult<Key10>
         match *op
         {
             Op10::Resetup => {}
+            Op10::QueueRun => { world.commands().queue(idle_sys); }
             Op10::Prepare(e) =>
             {
                 let s = world.resource::<AutoDespawner>().prepare(ents[e as usize]);
